@@ -115,3 +115,8 @@ extern std::set<std::string> g_known_sites;
 // canonical dump comparison helpers
 std::string dump_first_diff(const Dump &a, const Dump &b, bool mask_multipacket);
 const Bytes *dump_get(const Dump &d, const std::string &key);
+
+// ---- direct use of the public streaming sub-parsers (C14, C15): exact control over chunk boundaries
+// chunks: sizes in order (the remainder, if any, is delivered as a last chunk). Returns false when set-up failed.
+bool run_urlenp_direct(const Cfg &cfg, const Bytes &input, const std::vector<size_t> &chunks, Dump &out, std::vector<Violation> &viol);
+bool run_mpart_direct(const Cfg &cfg, const Bytes &content_type, const Bytes &body, const std::vector<size_t> &chunks, Dump &out, std::vector<Violation> &viol);
